@@ -59,6 +59,8 @@ func main() {
 		os.Exit(fw.ChildMain(*prop, *tier, *seed, *cases, *out))
 	case "replay":
 		os.Exit(fw.ReplayMain(os.Args[2]))
+	case "cold":
+		os.Exit(fw.ColdMain(os.Args[2], os.Args[3], os.Args[4]))
 	default:
 		fmt.Fprintln(os.Stderr, "unknown command", os.Args[1])
 		os.Exit(2)
